@@ -4,6 +4,7 @@ import Mathlib.Tactic.Ring
 import BioscrapeModel.Proofs.Laws
 import BioscrapeModel.Properties.C05
 import BioscrapeModel.Properties.C11
+import BioscrapeModel.Model.Lineage
 
 /-
 C09 — rules hold on every reported row and fire on their schedule.
@@ -195,6 +196,30 @@ theorem additive_rule (dest : Nat) (srcs : List Nat) (x p : List α) (vol t dt :
   simp only [zero_add] at h0
   rw [h0]
   congr 1
+
+/-! ### The lineage single-cell loop -/
+
+/-- **lineage loop: a rule step is raised exactly when the clock arrives at a time step** (a grid time, the final
+time, or a pure time step while no reaction can fire): so a `dt` or ODE rule runs once per elapsed step however many
+reactions fire in between, and keeps running after all reactions have become impossible. -/
+theorem cell_ruleStep_iff_tick (g : Gen σ α) (m : CellModel α) (dt final : α) (s : CellLoop σ α) (pre : CellPre σ α) :
+    (cellTiming g m dt final s pre).rstep = (cellTiming g m dt final s pre).toQ := by
+  unfold cellTiming
+  simp only
+  split_ifs <;> simp_all
+
+/-- the rows and the propensities of one lineage iteration are computed from the rule-updated state: the row written
+for the grid times just passed is the state after the repeated rules of this iteration. -/
+theorem cell_rows_see_ruled_state (times : List α) (s : CellLoop σ α) (pre : CellPre σ α) (tm : CellTiming σ α) :
+    (cellRecorded times s pre tm).results
+      = writeRows s.results s.idx (recordCount tm.tNew (times.drop s.idx)) (pre.x, s.vol) := rfl
+
+/-- the state the lineage loop's rules see is the rule pass of this iteration with the grid step as `dt`
+(`interface.set_dt(delta_t)`), evaluated at the cell's current volume and time. -/
+theorem cellPre_rules (g : Gen σ α) (m : CellModel α) (dt t0 v0 : α) (s : CellLoop σ α) :
+    ((cellPre g m dt t0 v0 s).x, (cellPre g m dt t0 v0 s).p) = applyRules m.rules s.x s.p s.vol s.t dt s.ruleStep := by
+  unfold cellPre
+  simp only
 
 /-! ### Non-vacuity: a three-rule chain in dependency order -/
 
